@@ -1835,3 +1835,257 @@ Proof.
     destruct Hb' as [H1 H2]. apply N.eqb_eq in H1. exists r'. repeat split; try assumption.
     intros Hh. rewrite Hh in H2. cbn in H2. now apply N.eqb_eq.
 Qed.
+
+(* ====================================================================================== *)
+(* 8. deepening round 3: what the refiller model lets go, and the acceptors of the refiller tie *)
+(* ====================================================================================== *)
+(* ---- same_keys is multiset equality ---------------------------------------------------- *)
+Definition key_eqb (k x : N * N) : bool := N.eqb (fst x) (fst k) && N.eqb (snd x) (snd k).
+Lemma key_eqb_eq k x : key_eqb k x = true <-> x = k.
+Proof.
+  unfold key_eqb. rewrite andb_true_iff, !N.eqb_eq. destruct k, x; cbn. split; [intros [-> ->]; reflexivity|intros [= -> ->]; tauto].
+Qed.
+Lemma count_key_cons k x l : count_key k (x :: l) = ((if key_eqb k x then 1 else 0) + count_key k l)%nat.
+Proof. unfold count_key. cbn [filter]. fold (key_eqb k x). destruct (key_eqb k x); reflexivity. Qed.
+Lemma count_key_app k a b : count_key k (a ++ b) = (count_key k a + count_key k b)%nat.
+Proof. unfold count_key. now rewrite filter_app, app_length. Qed.
+Lemma count_key_pos_In k l : (0 < count_key k l)%nat -> In k l.
+Proof.
+  induction l as [|x l IH]; [cbn; lia|]. rewrite count_key_cons. destruct (key_eqb k x) eqn:E.
+  - intros _. left. now apply key_eqb_eq.
+  - intros H. right. apply IH. lia.
+Qed.
+
+Lemma same_keys_perm a b : same_keys a b = true -> Permutation a b.
+Proof.
+  unfold same_keys. rewrite andb_true_iff, forallb_forall. intros [Hl Hc]. apply Nat.eqb_eq in Hl.
+  assert (Hc' : forall k, In k a -> count_key k a = count_key k b) by (intros k Hk; apply Nat.eqb_eq, Hc, Hk).
+  clear Hc. revert b Hl Hc'. induction a as [|x a IH]; intros b Hl Hc.
+  - destruct b; [constructor|discriminate].
+  - assert (Hx : In x b).
+    { apply count_key_pos_In. rewrite <- Hc by now left. rewrite count_key_cons.
+      replace (key_eqb x x) with true by (symmetry; now apply key_eqb_eq). lia. }
+    apply in_split in Hx. destruct Hx as (b1 & b2 & ->).
+    apply Permutation_cons_app. apply IH.
+    + rewrite app_length in *. cbn [List.length] in *. lia.
+    + intros k Hk. specialize (Hc k (or_intror Hk)).
+      rewrite count_key_cons in Hc. rewrite count_key_app in *. rewrite count_key_cons in Hc. lia.
+Qed.
+
+Lemma perm_same_keys a b : Permutation a b -> same_keys a b = true.
+Proof.
+  intros P. unfold same_keys. apply andb_true_iff. split; [apply Nat.eqb_eq, Permutation_length, P|].
+  apply forallb_forall. intros k _. apply Nat.eqb_eq. unfold count_key.
+  apply Permutation_length. clear -P. induction P; cbn; try (destruct (_ && _)); try (destruct (N.eqb _ _ && N.eqb _ _)); eauto using Permutation.
+Qed.
+
+Lemma conn_eqb_refl x : conn_eqb x x = true.
+Proof. unfold conn_eqb. apply N.eqb_refl. Qed.
+
+Lemma held_not_released size r e x :
+  In x (rf_held (pool_step size r e)) -> ~ In x (released_step size r e).
+Proof.
+  intros Hh Hr. destruct e as [c rq|c]; [|exact Hr]. unfold released_step in Hr.
+  apply filter_In in Hr. destruct Hr as [_ Hn]. apply negb_true_iff in Hn.
+  rewrite <- not_true_iff_false in Hn. apply Hn. apply existsb_exists. exists x. split; [assumption|apply conn_eqb_refl].
+Qed.
+
+Lemma In_concat_set_slot_app {A} i (c : A) (l : list (list A)) x :
+  In x (concat l) -> In x (concat (set_slot i (nth i l [] ++ [c]) l)).
+Proof.
+  revert i. induction l as [|v l IH]; intros i H; [destruct i; exact H|].
+  destruct i as [|i]; cbn [set_slot nth concat] in *.
+  - apply in_app_or in H. apply in_or_app. destruct H as [H|H]; [left; apply in_or_app; now left|now right].
+  - apply in_app_or in H. apply in_or_app. destruct H as [H|H]; [now left|right; now apply IH].
+Qed.
+
+Lemma In_concat_set_slot_new {A} i (c : A) (l : list (list A)) : (i < List.length l)%nat ->
+  In c (concat (set_slot i (nth i l [] ++ [c]) l)).
+Proof.
+  revert i. induction l as [|v l IH]; intros i H; [cbn in H; lia|].
+  destruct i as [|i]; cbn [set_slot nth concat].
+  - apply in_or_app. left. apply in_or_app. right. now left.
+  - apply in_or_app. right. apply IH. cbn in H. lia.
+Qed.
+
+(* without a resharding, handle_ready keeps every connection that sits in a slot *)
+Lemma handle_ready_keeps_slots size r c rq x :
+  sharder_eqb (rf_sharder r) (conn_sharder c) = true ->
+  In x (concat (rf_conns r)) -> In x (concat (rf_conns (handle_ready size r c rq))).
+Proof.
+  intros Hs Hx. unfold handle_ready, maybe_reshard. rewrite Hs.
+  destruct (match size with PerHost n => (active_count r <? n)%nat | PerShard n => (List.length (nth (N.to_nat (conn_shard c)) (rf_conns r) []) <? n)%nat end);
+    [|destruct rq; exact Hx].
+  cbn [rf_conns]. now apply In_concat_set_slot_app.
+Qed.
+
+Lemma pool_step_conns size r e : rf_conns (pool_step size r e) =
+  match e with EvReady c rq => rf_conns (handle_ready size r c rq) | EvBroken c => rf_conns (remove_conn r c) end.
+Proof. destruct e as [c rq|c]; cbn [pool_step]; [destruct (rf_is_full size _); reflexivity|reflexivity]. Qed.
+
+(* (1) a connection that sits in a pool slot is let go only by a resharding *)
+Theorem slot_conn_released_only_by_reshard size r c rq x :
+  sharder_eqb (rf_sharder r) (conn_sharder c) = true ->
+  In x (concat (rf_conns r)) -> ~ In x (released_step size r (EvReady c rq)).
+Proof.
+  intros Hs Hx. apply held_not_released. unfold rf_held. apply in_or_app. left.
+  rewrite pool_step_conns. now apply handle_ready_keeps_slots.
+Qed.
+
+(* the acceptance test of handle_ready *)
+Definition at_target (size : pool_size) (r : refiller) (c : conn) : bool :=
+  match size with
+  | PerHost n => (n <=? active_count r)%nat
+  | PerShard n => (n <=? List.length (nth (N.to_nat (conn_shard c)) (rf_conns r) []))%nat
+  end.
+
+(* (2) a new connection is let go only if its shard (PerShard) / the node (PerHost) is at its target:
+   never a connection of an under-filled shard *)
+Theorem new_conn_released_only_at_target size r c rq :
+  rf_wf r -> conn_ok c -> sharder_eqb (rf_sharder r) (conn_sharder c) = true ->
+  In c (released_step size r (EvReady c rq)) -> at_target size r c = true.
+Proof.
+  intros Hwf Hok Hs Hr. destruct (at_target size r c) eqn:Et; [reflexivity|]. exfalso.
+  revert Hr. apply held_not_released. unfold rf_held. apply in_or_app. left. rewrite pool_step_conns.
+  unfold handle_ready, maybe_reshard. rewrite Hs.
+  assert (Hcan : match size with PerHost n => (active_count r <? n)%nat
+                 | PerShard n => (List.length (nth (N.to_nat (conn_shard c)) (rf_conns r) []) <? n)%nat end = true).
+  { unfold at_target in Et. destruct size as [n|n]; apply Nat.leb_gt in Et; now apply Nat.ltb_lt. }
+  rewrite Hcan. cbn [rf_conns]. apply In_concat_set_slot_new.
+  destruct Hwf as [Hl _]. rewrite Hl. apply sharder_eqb_spec in Hs. rewrite Hs.
+  unfold conn_ok, conn_sharder, conn_shard in *. destruct (cinfo c) as [[[s nr] msb]|]; lia.
+Qed.
+
+(* (3) under-filled: the new connection is accepted into the slot of the shard the server reported *)
+Theorem under_target_accepted size r c rq :
+  rf_wf r -> conn_ok c -> sharder_eqb (rf_sharder r) (conn_sharder c) = true -> at_target size r c = false ->
+  In c (nth (N.to_nat (conn_shard c)) (rf_conns (pool_step size r (EvReady c rq))) []).
+Proof.
+  intros Hwf Hok Hs Et. rewrite pool_step_conns. unfold handle_ready, maybe_reshard. rewrite Hs.
+  assert (Hcan : match size with PerHost n => (active_count r <? n)%nat
+                 | PerShard n => (List.length (nth (N.to_nat (conn_shard c)) (rf_conns r) []) <? n)%nat end = true).
+  { unfold at_target in Et. destruct size as [n|n]; apply Nat.leb_gt in Et; now apply Nat.ltb_lt. }
+  rewrite Hcan. cbn [rf_conns]. rewrite nth_set_slot.
+  - rewrite Nat.eqb_refl. apply in_or_app. right. now left.
+  - destruct Hwf as [Hl _]. rewrite Hl. apply sharder_eqb_spec in Hs. rewrite Hs.
+    unfold conn_ok, conn_sharder, conn_shard in *. destruct (cinfo c) as [[[s nr] msb]|]; lia.
+Qed.
+
+(* (4) a connection waiting in the excess list is let go only when the pool has become full or the list
+   outgrew its limit *)
+Theorem excess_released_only_when_full size r c rq x :
+  sharder_eqb (rf_sharder r) (conn_sharder c) = true ->
+  In x (rf_excess r) -> In x (released_step size r (EvReady c rq)) ->
+  rf_is_full size (handle_ready size r c rq) = true \/
+  (excess_limit size r < S (List.length (rf_excess r)))%nat.
+Proof.
+  intros Hs Hx Hr. destruct (rf_is_full size (handle_ready size r c rq)) eqn:Ef; [now left|right].
+  destruct (Nat.lt_ge_cases (excess_limit size r) (S (List.length (rf_excess r)))) as [H|H]; [assumption|exfalso].
+  revert Hr. apply held_not_released. unfold rf_held. apply in_or_app. right.
+  cbn [pool_step]. rewrite Ef. unfold handle_ready, maybe_reshard. rewrite Hs.
+  destruct (match size with PerHost n => (active_count r <? n)%nat | PerShard n => (List.length (nth (N.to_nat (conn_shard c)) (rf_conns r) []) <? n)%nat end);
+    [exact Hx|]. destruct rq; [exact Hx|]. cbn [rf_excess].
+  rewrite app_length. cbn [List.length].
+  destruct (Nat.ltb_spec (excess_limit size r) (List.length (rf_excess r) + 1)); [lia|].
+  apply in_or_app. now left.
+Qed.
+
+(* the excess list never outgrows its limit; under PerHost it is always empty *)
+Lemma excess_limit_reshard size r sh : excess_limit size (maybe_reshard r sh) = excess_limit size (mkRef sh [] []).
+Proof. unfold maybe_reshard. destruct (sharder_eqb (rf_sharder r) sh) eqn:E; [apply sharder_eqb_spec in E; unfold excess_limit; now rewrite E|reflexivity]. Qed.
+
+Definition excess_bounded (size : pool_size) (r : refiller) : Prop :=
+  (List.length (rf_excess r) <= excess_limit size r)%nat.
+
+Lemma handle_ready_excess_bounded size r c rq : excess_bounded size r -> excess_bounded size (handle_ready size r c rq).
+Proof.
+  unfold excess_bounded. intros H. unfold handle_ready.
+  set (r1 := maybe_reshard r (conn_sharder c)).
+  assert (H1 : (List.length (rf_excess r1) <= excess_limit size r1)%nat).
+  { unfold r1, maybe_reshard. destruct (sharder_eqb (rf_sharder r) (conn_sharder c)); [exact H|cbn; lia]. }
+  assert (Hl : forall cs ex, excess_limit size (mkRef (rf_sharder r1) cs ex) = excess_limit size r1) by (intros; reflexivity).
+  destruct (match size with PerHost n => (active_count r1 <? n)%nat | PerShard n => (List.length (nth (N.to_nat (conn_shard c)) (rf_conns r1) []) <? n)%nat end).
+  - rewrite Hl. exact H1.
+  - destruct rq; [exact H1|]. rewrite Hl. cbn [rf_excess].
+    destruct (Nat.ltb_spec (excess_limit size r1) (List.length (rf_excess r1 ++ [c]))); [cbn; lia|assumption].
+Qed.
+
+Lemma swap_remove_length_le {A} i (l : list A) : (List.length (swap_remove i l) <= List.length l)%nat.
+Proof.
+  destruct l as [|a l'] eqn:E; [cbn; lia|]. rewrite <- E.
+  destruct (exists_last (l := l)) as (body & lst & ->); [congruence|].
+  rewrite swap_remove_snoc, app_length. cbn [List.length]. destruct (i =? List.length body)%nat; [lia|].
+  rewrite app_length. cbn [List.length]. rewrite firstn_length, skipn_length. lia.
+Qed.
+
+Lemma remove_conn_excess_bounded size r c : excess_bounded size r -> excess_bounded size (remove_conn r c).
+Proof.
+  unfold excess_bounded, remove_conn. intros H.
+  destruct (if (N.to_nat (conn_shard c) <? List.length (rf_conns r))%nat then index_conn c (nth (N.to_nat (conn_shard c)) (rf_conns r) []) else None).
+  - exact H.
+  - destruct (index_conn c (rf_excess r)); [|exact H]. cbn [rf_excess].
+    pose proof (swap_remove_length_le n (rf_excess r)). unfold excess_limit in *. cbn [rf_sharder]. lia.
+Qed.
+
+Theorem pool_run_excess_bounded size evs :
+  (List.length (rf_excess (pool_run size evs)) <= excess_limit size (pool_run size evs))%nat.
+Proof.
+  unfold pool_run. assert (H0 : excess_bounded size rf_init) by (unfold excess_bounded; cbn; lia).
+  revert H0. generalize rf_init. induction evs as [|e evs IH]; intros r Hr; [exact Hr|].
+  cbn [fold_left]. apply IH. destruct e as [c rq|c]; cbn [pool_step].
+  - pose proof (handle_ready_excess_bounded size r c rq Hr) as H.
+    destruct (rf_is_full size _); [unfold excess_bounded; cbn; lia|exact H].
+  - now apply remove_conn_excess_bounded.
+Qed.
+
+(* the limit itself: 10 x shard count, far from overflowing usize for a u16 shard count; 0 under PerHost *)
+Theorem excess_limit_bound size r :
+  match rf_sharder r with Some (nr, _) => (nr <= 65535)%N | None => True end ->
+  (N.of_nat (excess_limit size r) <= 655350)%N /\ (forall n, size = PerHost n -> excess_limit size r = 0%nat).
+Proof.
+  intros H. split; [|intros n ->; reflexivity]. unfold excess_limit. destruct size; [cbn; lia|].
+  destruct (rf_sharder r) as [[nr msb]|]; lia.
+Qed.
+
+(* ---- the two acceptors of the refiller tie, with content -------------------------------- *)
+Lemma concat_all_nil {A} (l : list (list A)) :
+  forallb (fun v => match v with [] => true | _ => false end) l = true -> concat l = [].
+Proof. induction l as [|[|x v] l IH]; cbn; [reflexivity|exact IH|discriminate]. Qed.
+
+Lemma rf_view_conns r : rf_wf r -> pool_conns (rf_view r) = concat (rf_conns r).
+Proof.
+  intros [Hl _]. unfold rf_view.
+  destruct (forallb _ (rf_conns r)) eqn:E; [symmetry; now apply concat_all_nil|].
+  destruct (rf_sharder r) as [[nr msb]|]; [reflexivity|]. cbn in Hl.
+  destruct (rf_conns r) as [|v [|? ?]]; try discriminate. cbn. now rewrite app_nil_r.
+Qed.
+
+(* accepted by refill_ok: the pool the REQUESTS see after the history (rf_view, well formed) consists of
+   connections with exactly the observed server-side shards, slot by slot *)
+Theorem refill_ok_view size evs final : Forall event_ok evs -> refill_ok size evs final = true ->
+  pool_wf (rf_view (pool_run size evs)) /\
+  map conn_shard (pool_conns (rf_view (pool_run size evs))) = final.
+Proof.
+  intros Hev H. pose proof (pool_run_wf size evs Hev) as Hwf.
+  split; [now apply rf_view_wf|]. rewrite rf_view_conns by assumption. now apply refill_ok_sound.
+Qed.
+
+(* accepted by refill_closed_ok <-> the connections the client closed are a permutation (as (shard, shard
+   count) pairs) of the connections the model lets go *)
+Theorem refill_closed_ok_perm size evs closed :
+  refill_closed_ok size evs closed = true <->
+  Permutation (map conn_key (refill_released size rf_init evs)) closed.
+Proof. unfold refill_closed_ok. split; [apply same_keys_perm|apply perm_same_keys]. Qed.
+
+(* every connection the model lets go along a history is let go by ONE step of it, to which the step
+   theorems above apply *)
+Lemma refill_released_step size r evs x : In x (refill_released size r evs) ->
+  exists pre e post, evs = pre ++ e :: post /\
+    In x (released_step size (fold_left (pool_step size) pre r) e).
+Proof.
+  revert r. induction evs as [|e evs IH]; intros r H; [destruct H|].
+  cbn [refill_released] in H. apply in_app_or in H. destruct H as [H|H].
+  - exists [], e, evs. split; [reflexivity|exact H].
+  - destruct (IH _ H) as (pre & e' & post & -> & Hx). exists (e :: pre), e', post. split; [reflexivity|exact Hx].
+Qed.
+
